@@ -11,7 +11,7 @@ import time
 import multiprocessing as mp
 
 sys.path.insert(0, os.path.dirname(os.path.abspath(__file__)))
-sys.path.insert(0, "/repo/src")
+sys.path.insert(0, __import__("os").environ.get("CKL_REPO", "/repo") + "/src")
 
 import refinterp as R  # noqa: E402
 
